@@ -81,7 +81,8 @@ def enum_order(header_text):
 
 
 def run(ck):
-    gp = generator_params(ck)
+    try: gp = generator_params(ck); gp_err = None
+    except AnalysisBroken as e: gp = None; gp_err = e
     us = [u for u in unitdb.units() if u.rel in ('src/auto_tld.c', 'src/is_tld.c')]
     if len(us) != 2: raise AnalysisBroken('src/auto_tld.c / src/is_tld.c not among the built units')
     tus = unitdb.load_asts(us)
@@ -100,6 +101,30 @@ def run(ck):
     r0.instance('src/is_tld.c:is_tld', ok=shape['ok'], detail=shape, wclass='shape', what='is_tld no longer has the lookup shape the table model assumes: ' + shape.get('why', ''))
     ck.analysed(functions=['is_tld'])
 
+    # R11.9 the statement's own reading of the CSV, independent of the generators' text: row i of the table is
+    # {domain_i, strlen+1, class the statement dictates}, nothing is missing and nothing is added; the test list has the
+    # line "<d>.<d>" for every row of raw.csv.  (A generator and artefacts changed together still face this rule.)
+    r9 = ck.rule('R11.9', 'statement vs artefacts, generators not consulted: tld_list[i] == {csv[i].domain, strlen+1, class by the documented rule} for every CSV row in order, no further rows; data/tld-domains.txt has one line "<d>.<d>" per raw.csv row', 2000)
+    for i in range(max(len(prow), len(rows) - 1)):
+        c = prow[i] if i < len(prow) else None; got = rows[i] if i < len(rows) - 1 else None
+        exp = [c[0], len(c[0]) + 1, statement_class(c)] if c else None
+        r9.instance(f'data/punycode.csv:row{i + 2}' if c else f'src/auto_tld.c:tld_list[{i}]', ok=(exp is not None and got == exp), wclass='missing-row' if got is None else 'extra-row' if c is None else 'row',
+                    what=(f'CSV row {i + 2} {c[0]!r} has no table row (the table ends after {len(rows) - 1} rows)' if got is None else f'table row {i} {got} has no CSV row' if c is None else f'table row {i} = {got}, the CSV dictates {exp}'),
+                    detail={'csv_row': c, 'table': got})
+    tl = open(os.path.join(REPO, 'data/tld-domains.txt'), encoding='utf-8').read().split('\n')
+    if tl and tl[-1] == '': tl.pop()
+    for i in range(max(len(rrow), len(tl))):
+        exp = f'{rrow[i][0]}.{rrow[i][0]}' if i < len(rrow) else None; got = tl[i] if i < len(tl) else None
+        r9.instance(f'data/tld-domains.txt:{i + 1}', ok=(exp is not None and exp == got), wclass='test-list-line',
+                    what=f'test list line {i + 1} is {got!r}; raw.csv row {i + 2} requires {exp!r}', detail={'expected': exp, 'got': got})
+    if gp is None:
+        # the generators' text is not in the shape this check can read.  If the artefacts already contradict the CSV that is
+        # a violation in its own right; otherwise the generator rules cannot be evaluated: exit 2.
+        if ck.violations:
+            ck.notes.append(f'generator rules R11.1 / R11.4 - R11.8 not evaluated: {gp_err}')
+            ck.undecided(f'generator-side rules (R11.1, R11.4-R11.8): {gp_err}')
+            return
+        raise gp_err
     # R11.1 row-by-row equality with f(CSV)
     r1 = ck.rule('R11.1', 'tld_list[i] == {csv[i].domain, length(domain)+off, class(csv[i])} for every CSV row, in CSV order', 1000)
     n = max(len(prow), len(rows) - 1)
